@@ -267,16 +267,20 @@ def two_buffer_history(args):
         else:
             cur = other(cur)
             line = 'e! ' + cur
-        script += line.encode() + b'\nw! d%d\n' % k
-        exp.append((line, cur, ''.join(l + '\n' for l in stack[cur][pos[cur]]).encode()))
+        # no dump after half of the editing lines: a dump is a command line of its own and would close an undo step left open
+        dumped = line in ('u', 'redo') or R.random() < 0.5
+        script += line.encode() + (b'\nw! d%d\n' % k if dumped else b'\n')
+        exp.append((line, cur, ''.join(l + '\n' for l in stack[cur][pos[cur]]).encode() if dumped else None))
     r, d = common.run_ex(vi, script, files={'f1': b'one\ntwo\nthree\n', 'f2': b'uno\ndos\n'}, timeout=60)
     obs = [common.readf(d, 'd%d' % k) for k in range(len(exp))]
     common.rmcase(d)
     wit = {'index': idx, 'script': script}
-    if r.timed_out or common.san_report(r) or any(o is None for o in obs):
+    if r.timed_out or common.san_report(r) or any(o is None and e[2] is not None for o, e in zip(obs, exp)):
         return ('inconclusive', None, wit, 0)
     n = 0
     for k, ((line, cb, want), got) in enumerate(zip(exp, obs)):
+        if want is None:
+            continue
         if line in ('u', 'redo'):
             n += 1
         if got != want:
